@@ -522,7 +522,8 @@ let monitor_pair prop case obs =
        let producers t = List.length (List.filter (fun d -> List.mem t (down_outs d)) all) in
        ignore noT;
        let unique_out = List.for_all (fun t -> producers t = 1) (down_outs moved) in
-       let single_src = List.for_all (fun t -> producers t = 1) (ins moved) in
+       (* nject's own Unused provider is one more source of Unused *)
+       let single_src = List.for_all (fun t -> producers t = 1 && t <> te.te_unusedT) (ins moved) in
        let cacheable = List.exists (fun d -> d.d_cacheable) c.bc_provs in
        if not (ok sa) then "PASS" else
        let all_inc = List.for_all (fun t -> match String.split_on_char ':' t with
